@@ -15,7 +15,7 @@ for s in /verif/seeded/*/; do
   for p in $PROPS; do
     # only the own property and the codec/list neighbours are worth the time
     case "$own:$p" in
-      $p:$p|C02:C07|C07:C02|C05:C14|C17:C17) ;;
+      $p:$p|C02:C07|C05:C14|C06:C13|C03:C13) ;;
       *) continue;;
     esac
     r=$(GOVC_FULL_SECS=45 /verif/bin/govc check -property $p -repo $WT -no-evidence 2>&1)
